@@ -147,7 +147,17 @@ func runC02Scenario(sc c02Scenario) c02Result {
 				if sc.Loader == 1 {
 					nops = 10
 				}
-				switch x := rng.Intn(nops); x {
+				x := rng.Intn(nops)
+				if sc.Loader == 1 && strings.HasSuffix(sc.Policy, "+stall") {
+					// mostly loads and reads: 45% loader-backed Get, 35% reads, the rest as usual
+					switch y := rng.Intn(20); {
+					case y < 9:
+						x = 9
+					case y < 16:
+						x = 3 + y%2
+					}
+				}
+				switch x {
 				case 0, 1:
 					log(c02Ev{C: cid, T: "call", Op: "set", K: k, V: v})
 					old, fresh := c.Set(k, v)
@@ -292,7 +302,23 @@ func runC02Scenario(sc c02Scenario) c02Result {
 	} else {
 		s := verifkit.NewSched(sc.Seed)
 		s.Adopt = true
-		s.Policy = sc.Policy
+		s.Policy = strings.TrimSuffix(sc.Policy, "+stall")
+		if strings.HasSuffix(sc.Policy, "+stall") {
+			// stall installations: a goroutine that is about to install a loaded value is released last (most of the time),
+			// so that joined calls return and later operations run while the value is not yet in the table
+			s.Choose = func(parked []*verifkit.G, rnd *rand.Rand) *verifkit.G {
+				var rest []*verifkit.G
+				for _, g := range parked {
+					if g.At != "ld.beforeInstall" {
+						rest = append(rest, g)
+					}
+				}
+				if len(rest) == 0 || len(rest) == len(parked) || rnd.Intn(12) == 0 {
+					return nil
+				}
+				return rest[rnd.Intn(len(rest))]
+			}
+		}
 		s.MaxSteps = 2000000
 		s.Filter = func(id string) bool { return c02Points[id] }
 		for i, fn := range fns {
